@@ -264,15 +264,16 @@ func (s *JavaFullListener) ExitBlock(ctx *parser.BlockContext) {
 	restoreLocalVars()
 }
 
-// the variable of a for statement is a local variable until the end of the statement
+// the variable of a for statement is a local variable until the end of the statement,
+// and the body of a switch statement is one scope although it is not a block
 func (s *JavaFullListener) EnterStatement(ctx *parser.StatementContext) {
-	if ctx.FOR() != nil {
+	if ctx.FOR() != nil || ctx.SWITCH() != nil {
 		saveLocalVars()
 	}
 }
 
 func (s *JavaFullListener) ExitStatement(ctx *parser.StatementContext) {
-	if ctx.FOR() != nil {
+	if ctx.FOR() != nil || ctx.SWITCH() != nil {
 		restoreLocalVars()
 	}
 }
